@@ -176,6 +176,9 @@ func MapOrder(on bool) {}
 // MapOrderMax: only maps with at most n entries are iterated in every order (default 4).
 func MapOrderMax(n int) {}
 
+// MapOrderSite: only the site-th range-over-map instruction of knut's code iterates in every order, for its first `budget` executions.
+func MapOrderSite(site, budget int) {}
+
 func Concrete(x int) int { return x }
 
 func Assume(c bool) {
@@ -324,6 +327,34 @@ func FSArm(op int, k int, crash bool) {
 	if syscall.Setrlimit(syscall.RLIMIT_FSIZE, &lim) == nil {
 		fsLimited = true
 	}
+}
+
+// CaptureStdout runs f with os.Stdout redirected and returns what was written.
+func CaptureStdout(f func()) string {
+	old := os.Stdout
+	r, w, err := os.Pipe()
+	if err != nil {
+		panic(err)
+	}
+	os.Stdout = w
+	done := make(chan string)
+	go func() {
+		var sb strings.Builder
+		buf := make([]byte, 4096)
+		for {
+			n, err := r.Read(buf)
+			sb.Write(buf[:n])
+			if err != nil {
+				break
+			}
+		}
+		done <- sb.String()
+	}()
+	func() {
+		defer func() { w.Close(); os.Stdout = old }()
+		f()
+	}()
+	return <-done
 }
 
 func FSOps() int { return 1 << 30 }
